@@ -21,6 +21,7 @@ func effectFree(name string) bool {
 		"github.com/scionproto/scion/pkg/private/prom", "github.com/scionproto/scion/private/tracing",
 		"github.com/opentracing/", "(github.com/opentracing/",
 		"(*sync.Mutex).", "(*sync.RWMutex).", "(*sync.Once).", "(sync.Locker).",
+		"sync.NewCond", "(*sync.Cond).Broadcast", "(*sync.Cond).Signal",
 		"(*sync/atomic.", "sync/atomic.",
 		"(error).Error", "(fmt.Stringer).String", "log/slog", "(*log/slog",
 		"github.com/scionproto/scion/pkg/private/common.", "runtime.", "(*math/rand", "math/rand",
@@ -155,6 +156,9 @@ func (x *Exec) staticCall(st *State, fr *Frame, ci *ssa.Call, callee *ssa.Functi
 		return true
 	}
 	c := x.contractFor(callee)
+	if c == nil {
+		c = x.externContract(name)
+	}
 	if c != nil && !c.inline && !forceInline {
 		x.modularCall(st, fr, ci, c, callee.Signature, args, callee, name)
 		return true
@@ -291,7 +295,29 @@ func (x *Exec) modularCall(st *State, fr *Frame, ci *ssa.Call, c *FuncContract, 
 	x.modular[name] = true
 	vars := map[string]SV{}
 	pkg := x.typesPkg(c.pkg)
-	if callee != nil {
+	if callee != nil && len(callee.Params) == 0 && len(args) > 0 {
+		// function without a body (outside the loaded sources): names come from the signature
+		x.modelled["assumed contract (extern): "+name] = true
+		k := 0
+		if rv := sig.Recv(); rv != nil {
+			n := rv.Name()
+			if n == "" || n == "_" {
+				n = "self"
+			}
+			vars[n] = args[0]
+			vars["self"] = args[0]
+			k = 1
+		}
+		ps := sig.Params()
+		for i := 0; i < ps.Len() && k+i < len(args); i++ {
+			n := ps.At(i).Name()
+			if n == "" || n == "_" {
+				n = fmt.Sprintf("arg%d", i)
+			}
+			vars[n] = args[k+i]
+			vars[fmt.Sprintf("arg%d", i)] = args[k+i]
+		}
+	} else if callee != nil {
 		for i, p := range callee.Params {
 			a := args[i]
 			if !types.Identical(a.ty, p.Type()) {
@@ -511,7 +537,7 @@ func (x *Exec) copyBuiltin(st *State, fr *Frame, ci *ssa.Call, dst, src SV) SV {
 	} else {
 		srcLen = src.l[2]
 	}
-	n := Ite(BvCmp("bvult", srcLen, dst.l[2]), srcLen, dst.l[2])
+	n := Ite(BvCmp("bvslt", srcLen, dst.l[2]), srcLen, dst.l[2])
 	if n.isConst() && n.c.Int64() <= 64 && !srcIsString {
 		cnt := n.c.Int64()
 		vals := make([]SV, cnt)
@@ -545,7 +571,7 @@ func (x *Exec) copyBuiltin(st *State, fr *Frame, ci *ssa.Call, dst, src SV) SV {
 		newArr := mkVar(freshName("copy_"+regionName(dli.key(k))), oldArr.sort)
 		j := mkBound(freshName("j"), I64)
 		dOff := dli.idxs[0] // dst.off + 0
-		inRange := And(BvCmp("bvule", dOff, j), BvCmp("bvult", j, BvBin("bvadd", dOff, n)))
+		inRange := And(BvCmp("bvsle", dOff, j), BvCmp("bvslt", j, BvBin("bvadd", dOff, n)))
 		var srcVal *Term
 		if srcIsString || len(sli.idxs) != 1 {
 			srcVal = nil
@@ -561,7 +587,13 @@ func (x *Exec) copyBuiltin(st *State, fr *Frame, ci *ssa.Call, dst, src SV) SV {
 			body = Implies(Not(inRange), Eq(Select(newArr, j), Select(oldArr, j)))
 		}
 		st.assume(Forall([]*Term{j}, body))
+		if st.disc != nil {
+			st.disc.curWin = &win{dOff, n}
+		}
 		st.setRegion(dli.key(k), Store(r, dst.l[0], newArr))
+		if st.disc != nil {
+			st.disc.curWin = nil
+		}
 	}
 	_ = et
 	return scalarSV(intT, n)
@@ -583,8 +615,8 @@ func (x *Exec) appendBuiltin(st *State, fr *Frame, ci *ssa.Call, s, extra SV) SV
 	newLen := BvBin("bvadd", s.l[2], exLen)
 	ref := x.freshRef(st)
 	cp := mkVar(freshName("appcap"), I64)
-	st.assume(BvCmp("bvule", newLen, cp))
-	st.assume(BvCmp("bvule", cp, mkBVu(1<<40, 64)))
+	st.assume(lenLe(newLen, cp))
+	st.assume(BvCmp("bvsle", cp, mkBVu(1<<40, 64)))
 	res := SV{ty: ci.Type(), l: []*Term{ref, mkBV(0, 64), newLen, cp}}
 	// contents: result[i] = s[i] for i < len(s); result[len(s)+j] = extra[j]
 	sli := resolveLoc(sliceElemAddr(s, mkBV(0, 64)))
@@ -608,7 +640,7 @@ func (x *Exec) appendBuiltin(st *State, fr *Frame, ci *ssa.Call, s, extra SV) SV
 			j := mkBound(freshName("j"), I64)
 			if len(sli.idxs) == 1 {
 				sArr := Select(st.region(sli.key(sli.lo+k), sli.regionSort(sli.lo+k)), s.l[0])
-				st.assume(Forall([]*Term{j}, Implies(BvCmp("bvult", j, s.l[2]),
+				st.assume(Forall([]*Term{j}, Implies(idxIn(j, s.l[2]),
 					Eq(Select(base, j), Select(sArr, BvBin("bvadd", sli.idxs[0], j))))))
 			}
 		}
@@ -623,7 +655,7 @@ func (x *Exec) appendBuiltin(st *State, fr *Frame, ci *ssa.Call, s, extra SV) SV
 			j := mkBound(freshName("j"), I64)
 			if len(eli.idxs) == 1 {
 				eArr := Select(st.region(eli.key(eli.lo+k), eli.regionSort(eli.lo+k)), extra.l[0])
-				inEx := And(BvCmp("bvule", s.l[2], j), BvCmp("bvult", j, newLen))
+				inEx := And(BvCmp("bvsle", s.l[2], j), BvCmp("bvslt", j, newLen))
 				st.assume(Forall([]*Term{j}, Eq(Select(nb, j),
 					Ite(inEx, Select(eArr, BvBin("bvadd", eli.idxs[0], BvBin("bvsub", j, s.l[2]))), Select(base, j)))))
 			}
@@ -631,7 +663,7 @@ func (x *Exec) appendBuiltin(st *State, fr *Frame, ci *ssa.Call, s, extra SV) SV
 		} else {
 			nb := mkVar(freshName("app3_"+regionName(key)), ArrS(I64, l.sort))
 			j := mkBound(freshName("j"), I64)
-			st.assume(Forall([]*Term{j}, Implies(BvCmp("bvult", j, s.l[2]), Eq(Select(nb, j), Select(base, j)))))
+			st.assume(Forall([]*Term{j}, Implies(idxIn(j, s.l[2]), Eq(Select(nb, j), Select(base, j)))))
 			base = nb
 		}
 		st.setRegion(key, Store(r, ref, base))
